@@ -71,6 +71,36 @@ CHECKS = {
             "Sequences of clock advances (sub-threshold, just past recency, past the trusting period), chain halts, gossip and groups of concurrent Head() calls whose shared request is held open until all callers have joined. Oracle over the recorded getter calls and results: Head() heights never decrease in return order; a recent subjective head causes no request; a stale one exactly one request carrying TrustedHead = subjective head, shared by all overlapping callers who get the same height; (re)initialisation asks without TrustedHead and adopts only a non-expired head, else fails.",
             "Thresholds are configured explicitly so no implementation default is mirrored.",
             "DESIGN.md §6 C19"),
+    "C05": ("exploration",
+            "deterministic simulation with fault injection: real p2p.Exchange client on a libp2p mocknet against 1-5 scripted Byzantine/omission peers whose replies are released by the seeded scheduler in virtual time",
+            "Per run: chunk size, request timeout, peer count, (from,to) incl. degenerate ones, and for every peer a palette from a catalogue of 21 behaviours (honest, NOT_FOUND, prefix, shifted up/down/short, repeated, reordered, extra, forged, wrong/empty chain, fails Validate, undecodable body, unknown status, raw garbage, truncated frame, empty stream, hang, reset, slower than the timeout). Oracle: the call returns within its own deadline plus one request timeout; the result is an error or exactly the honest headers from+1, from+2, ... below to; degenerate requests fail at once; nothing panics.",
+            "libp2p's mocknet is the transport (real BasicHost, multistream, streams); its streams ignore deadlines. Peers are scripted handlers speaking the real protobuf/serde framing. Residual nondeterminism of mocknet internals at GOMAXPROCS=1 was measured (evidence/selftest-determinism.json).",
+            "DESIGN.md §6 C05"),
+    "C09": ("exploration",
+            "deterministic simulation: 1-6 scripted peers answering head requests (agreeing, conflicting, invalid, soft-/hard-failing against the trusted head, missing, hanging), arrival order decided by the seeded scheduler; statement replayed over what the asked peers supplied",
+            "Oracle: the returned header was supplied as acceptable by an asked peer; with every asked peer answering and no quorum the result has the highest reported height; nobody supplied one -> ErrNotFound and a zero header; a caller deadline only with hanging peers and never when a quorum was available without them; with WithTrustedHead a nil error means it verifies against it, a soft-failing header comes with its SoftFailure *VerifyError, a hard-failing one never; at most 4 ordinary peers are asked.",
+            "Which of several quorum candidates wins under hanging peers is not asserted. Peer order is made reproducible by the verif-tagged p2p hook.",
+            "DESIGN.md §6 C09"),
+    "C10": ("exploration",
+            "deterministic simulation with fault injection: real ExchangeServer over a recording/delaying proxy around a real pruned Store; raw stream client sending the (origin,amount) boundary grid, hashes, garbage and half frames; slow store in virtual time",
+            "Stores with tail above 1 (real DeleteRange) and head H; requests from the grid {0,1,tail-1,tail,tail+1,mid,H-1,H,H+1,H+70,2^64-64,2^64-1} x {0,1,2,63,64,65,1000,2^64-2,2^64-1}, known/pruned/unknown/overlong hashes, arbitrary bytes, truncated frames, and a store slower than RequestTimeout. Oracle: the exchange ends within the configured timeouts, the proxy saw header reads of at most min(amount, MaxRangeRequestSize), the reply is NOT_FOUND, a reset, or OK frames that decode to exactly the store's headers at origin, origin+1, ... (shorter only past the head), origin 0 -> head, hash -> that header.",
+            "mocknet streams ignore Set(Read|Write)Deadline, so a client that stalls without closing cannot be timed out here: ReadDeadline/WriteDeadline are not exercised, RequestTimeout is.",
+            "DESIGN.md §6 C10"),
+    "C11": ("exploration",
+            "deterministic simulation: three real gossipsub nodes on a mocknet line A-B-C in virtual time, raw publisher at A, real p2p.Subscribers at B and C, scripted verifier at B, raw tracer + peer score inspection + both subscriptions as observation points",
+            "One message at a time (heartbeats run on the fake clock): payloads valid / failing Validate / truncated / extended / arbitrary / decoder-panicking / single-field-corrupted, crossed with verifier outcomes nil, soft, hard, wrapped soft/hard, plain error, panic, slow, and no verifier set yet. Oracle: delivered at B and received at C (reachable only through B) iff it decodes, validates and the verifier returned nil, with the delivered value equal to the header; soft -> tracer 'validation ignored', nothing delivered/relayed, A's invalid-message counter unchanged; anything else -> 'validation failed'; a message arriving before a verifier is set is held and then judged; the process survives every case.",
+            "Real go-libp2p-pubsub; gossipsub timing parameters are its defaults.",
+            "DESIGN.md §6 C11"),
+    "C13": ("exploration",
+            "deterministic simulation with fault injection: 1-4 scripted trusted peers answering Get/GetByHeight with a catalogue of valid, lying, malformed, hanging and slow responses, released by the seeded scheduler in virtual time",
+            "Answers: honest, another valid header, wrong chain, empty chain id, fails Validate, empty body with OK, NOT_FOUND, unknown status, zero or two responses, oversized length prefix, truncated frame, arbitrary bytes, hang, reset, slower than the request timeout. Oracle: Get(hash) returns a header with that hash or an error; both calls return only a header that some trusted peer sent as a decodable, validating, right-chain first response; they succeed when a trusted peer answered validly in time (and nobody lied with another valid header), fail when none did; never (zero header, nil); no panic.",
+            "Which valid answer wins is not asserted.",
+            "DESIGN.md §6 C13"),
+    "C18": ("exploration",
+            "deterministic simulation with benign fault injection: real Exchange client against 1-5 real ExchangeServers over real Stores (availability prefixes), service times, one-off timeouts, slow peers, disconnect/reconnect, in virtual time; bounded liveness",
+            "Grid per run: chunk size 1..64, range length 1..3x chunk, 1..5 servers of which one holds everything and is healthy, the others hold tape-chosen prefixes (ending before, inside or after the range) and may time out once, be slow, or disconnect and reconnect mid-request. Oracle: GetRangeByHeight returns nil error and exactly from+1..to-1 in ascending order within a virtual-time budget of chunks x (peers+2) x (timeout+service); Head/Get/GetByHeight return the servers' headers unchanged through the wire encoding.",
+            "Bounded liveness with a generous stated budget; peers are honest by construction.",
+            "DESIGN.md §6 C18"),
 }
 
 PENDING = {}  # id -> reason (not claimed yet)
